@@ -29,6 +29,7 @@ Partial: the client-side `Sender`/`Receiver` of the `aldrin` crate are not model
 -/
 import Aldrin.Lemmas.Broker.Handlers
 import Aldrin.Lemmas.Broker.Own
+import Aldrin.Lemmas.ClientChan
 
 namespace Aldrin.Broker
 
@@ -165,6 +166,63 @@ theorem connection_lists_only_ends_it_claimed (es : List Event) (b : Broker) (w 
       cases hs : ch.receiver <;> simp [hs, endOwner] at this
       exact ⟨ch, _, hch, by rw [hs, this]⟩
     · simp at this
+
+/-! ### client level: the real `Sender` / `Receiver` composed with the broker's channel (`Model/ClientChan.lean`) -/
+
+/-- **All schedules of a producer and a consumer.** A channel established with any capacity `1 ≤ max ≤ u32::MAX`; any
+sequence of: the sender sends if `poll_send_ready` lets it, the receiver takes an item, the sender polls
+`receiver_closed`, the sender polls `send_ready` — the system at rest in between. Then: no `debug_assert!` of `Sender`,
+`Receiver` or `Channel` fails; the broker never refuses an item or a grant (a sender that stays within the capacity
+announced to it is never cut off, and no grant overflows); the items waiting at the receiver are exactly those sent
+and not yet taken; the sender's capacity together with the announcements waiting in its queue is the broker's credit
+of the sender, the receiver's remaining capacity is the broker's credit of the receiver plus the waiting items; and a
+sender whose receiver has taken everything is allowed to send. -/
+theorem client_channel_all_schedules (max : Nat) (h1 : 0 < max) (h2 : max ≤ u32Max) (ops : List ClientChan.Op) :
+    ∃ s os, ClientChan.run (ClientChan.init max) ops = .ok (s, os) ∧ ClientChan.Obs.cutOff ∉ os ∧
+      s.rcv.items + ClientChan.count .item os = ClientChan.count .sent os ∧
+      (∃ sc rc, s.chan = ⟨.claimed ClientChan.sid sc, .claimed ClientChan.rid rc⟩ ∧
+        s.snd.capacity + s.snd.queue.sum = sc ∧ s.rcv.cur = rc + s.rcv.items ∧ sc ≤ rc) ∧
+      0 < s.rcv.cur ∧ s.rcv.cur ≤ max ∧
+      (s.rcv.items = 0 → 0 < s.snd.drain.capacity) := by
+  obtain ⟨s, os, hr, hi, hc⟩ := ClientChan.run_inv (ClientChan.init_inv h1 h2) ops
+  have hitems := ClientChan.run_items hr
+  have hmax : s.rcv.max = max := by
+    have : ∀ (ops : List ClientChan.Op) (a b : ClientChan.Sys) (os : List ClientChan.Obs),
+        ClientChan.run a ops = .ok (b, os) → ClientChan.Inv a → b.rcv.max = a.rcv.max := by
+      intro ops
+      induction ops with
+      | nil => intro a b os h _; simp only [ClientChan.run, Except.ok.injEq, Prod.mk.injEq] at h; rw [← h.1]
+      | cons op ops ih =>
+        intro a b os h ha
+        obtain ⟨a1, o, e1, i1, _⟩ := ClientChan.step_inv ha op
+        simp only [ClientChan.run, e1] at h
+        split at h
+        · simp at h
+        · rename_i b' os' e2
+          simp only [Except.ok.injEq, Prod.mk.injEq] at h
+          obtain ⟨rfl, _⟩ := h
+          rw [ih _ _ _ e2 i1]
+          cases op <;> simp only [ClientChan.step] at e1
+          · repeat' split at e1
+            all_goals (simp only [Except.ok.injEq, Prod.mk.injEq, reduceCtorEq] at e1)
+            all_goals (try (exact e1.elim))
+            all_goals (obtain ⟨rfl, _⟩ := e1; rfl)
+          · repeat' split at e1
+            all_goals (simp only [Except.ok.injEq, Prod.mk.injEq, reduceCtorEq] at e1)
+            all_goals (try (exact e1.elim))
+            all_goals (obtain ⟨rfl, _⟩ := e1; rfl)
+          · obtain ⟨rfl, _⟩ := Prod.mk.inj (Except.ok.inj e1); rfl
+          · obtain ⟨rfl, _⟩ := Prod.mk.inj (Except.ok.inj e1); rfl
+    exact this ops _ _ _ hr (ClientChan.init_inv h1 h2)
+  obtain ⟨sc, rc, e1, e2, e3, e4, _⟩ := hi.ex
+  refine ⟨s, os, hr, hc, ?_, ⟨sc, rc, e1, e2, e3, e4⟩, hi.curPos, hmax ▸ hi.curLe, ClientChan.ready_of_caught_up hi⟩
+  simpa [ClientChan.init] using hitems
+
+/-! non-vacuity: capacity 2; two items go, the third send is blocked; one take tops the receiver up and the announcement
+reaches the sender, which `poll_receiver_closed` counts as well as `poll_send_ready` does -/
+example : (match ClientChan.run (ClientChan.init 2) [.send, .send, .send, .take, .pollClosed, .send] with
+    | .ok (s, os) => (os, s.snd.capacity, s.rcv.cur, s.rcv.items) | .error _ => ([], 0, 0, 0)) =
+    ([.sent, .sent, .blocked, .item, .pending, .sent], 0, 2, 2) := by decide
 
 /-! non-vacuity: a concrete history that establishes a channel with capacity 5 and sends an item -/
 example : (match run {} {} [.newConn 0 20, .newConn 1 20, .msg 0 (.createChannel 1 .sender 0),
